@@ -308,6 +308,7 @@ func cmdCheck(args []string) int {
 	}
 	rep.replayAll(dir)
 	rep.runBounded(dir)
-	code := rep.finish(time.Since(t0).Seconds(), *only == "")
+	// VERIF_NO_EVIDENCE: runs on deliberately modified trees (tools/try_seed.sh, tools/selftest.sh) must not overwrite the evidence
+	code := rep.finish(time.Since(t0).Seconds(), *only == "" && os.Getenv("VERIF_NO_EVIDENCE") == "")
 	return code
 }
